@@ -25,8 +25,18 @@ PROP = {
         "a page's content is abstracted to one number (the harness keeps an 8-byte payload at the start of the page's data area)",
         "single-threaded use of the pager: references held outside the cache (pins) are explicit operations; a checkpoint while frames are pinned detaches them (modelled, generated in a minority of cases, excluded by hypothesis in the refinement theorem)",
         "page deallocation / the free list belong to C11 and are not driven here",
+        "pages whose allocation failed with out-of-memory are never referred to afterwards (their id never reached the caller; allocate_page leaks the id — a C11 matter)",
+        "grid: a statement whose worker thread panicked is reported as `panic`, one that does not answer within 20 s as `hang`; both count as failures; in a configuration with a cache below 48 pages an explicit out-of-memory error is tolerated and the rest of that configuration's run is not compared",
     ],
-    "partial": "",
+    "partial": "Proved (unbounded, all defect combinations): the storage half of C12 — cache+file refine a flat store, so answers do not "
+               "depend on the cache capacity or the eviction order; checkpoint completeness; out-of-memory only with >= capacity pins; "
+               "configuration round-trip through page zero. NOT proved here: independence of the SQL answers from the page geometry "
+               "(page size, min keys per page, siblings per side) and from the pool size — that needs the logical database model and "
+               "C10's B+tree theorems (`geometry_irrelevant`, DESIGN §5); the full statement is kept as "
+               "`sql_results_independent_of_configuration_statement` (a def, not claimed) and is only tested by the configuration grid "
+               "(`grid` cases: 8 workloads x 12 configurations per quick run). The grid's clean region is workloads with rows below 300 bytes and "
+               "at most 240 inserts per table: larger rows break the B+tree in every configuration (finding KF-C12-btree-big-cells, region `bigrows`), "
+               "and the 256th insert into a table overflows the one-byte tuple version counter of its catalog row (tuple.rs:1020, C18).",
     "trusted": [],
 }
 
